@@ -169,11 +169,17 @@ class C17Run(E2Run):
         if conn >= len(self.conns):
             return
         c = self.conns[conn]
+        owner = self.node(self.conn_owner[conn])
+        deliverable = self.server_up() and owner is not None and self.path_ok(owner) and self.client_up(owner) and "database-client" in owner.software_manager.software
+        was_open = c.connection_id in self.m["open"] and c.connection_id in self.svc.connections and getattr(c, "is_active", False)
         c.disconnect()
         if c.connection_id not in self.svc.connections:
             self.m["open"].discard(c.connection_id)
             self.m["closed"].add(c.connection_id)
             self.probe("c17_disconnected")
+        elif was_open and deliverable:
+            # the client asked for the connection to be closed and nothing stood in the way of telling the service
+            raise Violation("C17", "closed-connection-still-open", f"connection {conn} of {self.conn_owner[conn]} was disconnected by its client (client, service and path up) but the service still lists it as open", sig="closed-connection-still-open", detail={})
 
     def call_backup(self):
         self._transfers = getattr(self, "_transfers", 0) + 1
@@ -200,6 +206,8 @@ class C17Run(E2Run):
         reach = self.backup_reachable()
         ok = self.svc.restore_backup()
         ha = self.file_health()
+        if not ok and hb is not None and ha is None:
+            raise Violation("C17", "failed-restore-destroyed-the-data", f"restore_backup() failed and the database file (was {hb}) no longer exists", sig="failed-restore-destroyed-the-data", detail={})
         if ok:
             self.probe("c17_restore_ok")
             if not up or (not reach and not self.same_host_backup):
